@@ -14,7 +14,8 @@ from .. import common, observe
 from ..common import ToolError
 
 NEEDS = ["driver", "cli"]
-ANN = {"none": "", "plain": "#[typeshare]\n", "path": "#[typeshare::typeshare]\n", "args": '#[typeshare(swift = "Equatable")]\n'}
+ANN = {"none": "", "plain": "#[typeshare]\n", "path": "#[typeshare::typeshare]\n", "args": '#[typeshare(swift = "Equatable")]\n',
+       "abs_path": "#[::typeshare::typeshare]\n", "spaced": "#[ typeshare ]\n"}
 SKIP = {
     "serde_skip": ["#[serde(skip)]"], "typeshare_skip": ["#[typeshare(skip)]"], "serde_after_word": ["#[serde(default, skip)]"],
     "serde_after_kv": ['#[serde(rename = "zz", skip)]'], "typeshare_after_kv": ['#[typeshare(serialized_as = "String", skip)]'],
@@ -200,7 +201,10 @@ PLACE_FILE = {"second_root": ("root2", "cb/src/b.rs"), "third_root": ("root3", "
               "build_rs": ("root1", "cb/src/build.rs"), "space_name": ("root1", "cb/src/b file.rs"), "dotted_name": ("root1", "cb/src/types.v2.rs"),
               "nonascii_dir": ("root1", "cb/src/mod\u00e8les/b.rs"), "upper_dir": ("root1", "cb/src/SRC_Types/b.rs"), "no_src": ("root1", "cb/b.rs"),
               "symlink_file": ("root1", "cb/src/b.rs"),
-              "sibling_prefix_root": ("root1-types", "cb/src/b.rs"), "prefix_crate_dirs": ("root1", "ca-types/src/b.rs")}
+              "sibling_prefix_root": ("root1-types", "cb/src/b.rs"), "prefix_crate_dirs": ("root1", "ca-types/src/b.rs"),
+              "ann_abs_path_alone": ("root1", "cb/src/b.rs"), "ann_spaced_alone": ("root1", "cb/src/b.rs"), "ann_path_alone": ("root1", "cb/src/b.rs")}
+# the annotation of the item that is ALONE in its file, in the spellings other than #[typeshare]
+PLACE_ANN = {"ann_abs_path_alone": "#[::typeshare::typeshare]", "ann_spaced_alone": "#[ typeshare ]", "ann_path_alone": "#[typeshare::typeshare]"}
 # directory arguments other than the top-level directories of the tree
 PLACE_ROOTS = {"prefix_crate_dirs": ["root1/ca", "root1/ca-types", "root1/cc"]}
 
@@ -223,7 +227,7 @@ def places(chk):
         d = os.path.join(work, f"p{k}")
         root, rel = PLACE_FILE[c["place"]]
         files = {"root1/ca/src/lib.rs": "#[typeshare]\npub struct First { pub alpha: u32 }\n", "root1/cc/src/lib.rs": "#[typeshare]\npub struct Third { pub alpha: u32 }\n",
-                 f"{root}/{rel}": "#[typeshare]\npub struct Second { pub alpha: u32 }\n"}
+                 f"{root}/{rel}": PLACE_ANN.get(c["place"], "#[typeshare]") + "\npub struct Second { pub alpha: u32 }\n"}
         if root == "root3":
             files["root2/cz/src/lib.rs"] = "pub struct NotShared;\n"
         if c["place"] == "symlink_file":          # b.rs is a symbolic link to a regular file that lies outside every scanned directory
